@@ -198,6 +198,7 @@ func C01(p *load.Prog, r *oblig.Run) {
 	c01BOM(p, r)
 	c01Family(p, r)
 	c01Encoder(p, r)
+	c01TagLookup(p, r)
 	// the decoder half of the round trip: C02's loop rules (R02.*) are obligations of C01 as well
 	c02Rules(p, r)
 }
